@@ -30,7 +30,7 @@ NATIVE = {
     "C06": [("search-interrupt", ["--depth=3", "--maxnodes=120"], ["--depth=3", "--maxnodes=600"])],
     "C03": [("bestmove", [], [])],
     "C07": [("overrun", [], [])],
-    "C05": [("minimax", ["--walks=6", "--depth=2"], ["--walks=40", "--depth=3"])],
+    "C05": [("minimax", ["--walks=300", "--depth=3"], ["--walks=3000", "--depth=3"])],
     "C08": [("mate-in-one", ["--walks=15"], ["--walks=300"])],
     "C09": [("game-history", ["--games=40", "--plies=20"], ["--games=400", "--plies=40"])],
     "C04": [("position-cmd", ["--games=60", "--plies=24"], ["--games=600", "--plies=60"]), ("to-algebraic", [], [])],
